@@ -349,9 +349,17 @@ func (i *Interface) PutNew(r record.Record) (err error) {
 // - Record locking
 // - Hooks
 // - Subscriptions
-// - Caching
+// - Delayed cache writing (records go to the storage directly; the read cache
+// of this interface is kept in line with them)
 // Use with care.
 func (i *Interface) PutMany(dbName string) (put func(record.Record) error) {
+	return i.putMany(dbName, true)
+}
+
+// putMany implements PutMany. Flushing the write cache stores records that
+// the read cache already holds and must not touch the read cache again: an
+// eviction would wait for the write cache lock that the flush is holding.
+func (i *Interface) putMany(dbName string, updateReadCache bool) (put func(record.Record) error) {
 	interfaceBatch := make(chan record.Record, 100)
 
 	// permission check
@@ -406,7 +414,9 @@ func (i *Interface) PutMany(dbName string) (put func(record.Record) error) {
 					return
 				}
 				// Keep the read cache in line with what was handed to the storage.
-				i.updateCache(r, false, remove, ttl)
+				if updateReadCache {
+					i.updateCache(r, false, remove, ttl)
+				}
 			case <-time.After(1 * time.Second):
 				// bail out
 				internalErr = errors.New("timeout: putmany unused for too long")
